@@ -440,26 +440,33 @@ def get_odesys(
                 A = be.Matrix(compo_vecs)
                 rA, pivots = A.rref()
 
-                analytic_exprs = OrderedDict()
-                for ri, ci1st in enumerate(pivots):
-                    for idx in range(ci1st, odesys.ny):
+                chosen = []
+                for ri in range(len(pivots)):
+                    for idx in range(odesys.ny):
                         key = odesys.names[idx]
                         if rA[ri, idx] == 0:
                             continue
                         if _preferred is None or key in _preferred:
-                            terms = [
-                                rA[ri, di] * (odesys.dep[di] - y0[odesys.dep[di]])
-                                for di in range(ci1st, odesys.ny)
-                                if di != idx
-                            ]
-                            analytic_exprs[odesys[key]] = (
-                                y0[odesys.dep[idx]] - sum(terms) / rA[ri, idx]
-                            )
+                            # make ``idx`` the pivot column of row ``ri``: no other row (and
+                            # hence no other expression) may refer to an eliminated variable.
+                            rA[ri, :] = rA[ri, :] / rA[ri, idx]
+                            for rj in range(rA.rows):
+                                if rj != ri and rA[rj, idx] != 0:
+                                    rA[rj, :] = rA[rj, :] - rA[rj, idx] * rA[ri, :]
+                            chosen.append((ri, idx))
                             if _preferred is not None:
                                 _preferred.remove(key)
                             break
-                for k in reversed(list(analytic_exprs.keys())):
-                    analytic_exprs[k] = analytic_exprs[k].subs(analytic_exprs)
+                analytic_exprs = OrderedDict()
+                for ri, idx in chosen:
+                    terms = [
+                        rA[ri, di] * (odesys.dep[di] - y0[odesys.dep[di]])
+                        for di in range(odesys.ny)
+                        if di != idx
+                    ]
+                    analytic_exprs[odesys[odesys.names[idx]]] = y0[
+                        odesys.dep[idx]
+                    ] - sum(terms)
                 if _preferred is not None and len(_preferred) > 0:
                     raise ValueError(
                         "Failed to obtain analytic expression for: %s"
